@@ -1,6 +1,7 @@
 import Driver.Util
 import Driver.MC4
 import Driver.Disp
+import Driver.Pipe
 
 def main (args : List String) : IO UInt32 := do
   let stdin ← IO.getStdin
@@ -8,4 +9,5 @@ def main (args : List String) : IO UInt32 := do
   match args with
   | ["mc4"] => Driver.MC4.run lines; return 0
   | ["disp"] => Driver.Disp.run lines; return 0
+  | ["pipe"] => Driver.Pipe.run lines; return 0
   | _ => IO.eprintln "usage: pmdriver <mode>  (case file on stdin)"; return 2
